@@ -42,10 +42,19 @@ def changed(snap, a):
     out = []
     for old, new in zip(vals, arr.ravel()):
         if isinstance(old, float) or isinstance(new, float):
-            same = (isinstance(old, float) and isinstance(new, float) and (old == new or (old != old and new != new)))
-            if not same:
-                out.append(True)
-            continue
+            fo = isinstance(old, float) and (old != old or old in (float("inf"), float("-inf")))
+            fn = isinstance(new, float) and (new != new or new in (float("inf"), float("-inf")))
+            if fo or fn:
+                same = (isinstance(old, float) and isinstance(new, float) and (old == new or (old != old and new != new)))
+                if not same:
+                    out.append(True)
+                continue
+            # a finite python float next to an exact value: compare numerically (representation, not content, differs)
+            from fractions import Fraction
+            if isinstance(old, float):
+                old = Fraction(old)
+            if isinstance(new, float):
+                new = Fraction(new)
         n_ = pe._num(new)
         if isinstance(n_, pe._Inf) or isinstance(old, pe._Inf):
             if not (isinstance(n_, pe._Inf) and isinstance(old, pe._Inf) and n_.sign == old.sign):
